@@ -233,6 +233,240 @@ func runC17(c *Ctx) {
 			c.check(locks, "C17.root-lock", "mpt."+f.Name()+" replaces the root under the trie mutex", st.Store.Pos(), "Lock/RLock dominates", "the root pointer is written without the trie mutex")
 		}
 	}
+
+	// ---- iteration order: the iterator's work list is a stack popped at the end, so a branch must
+	// schedule its children from the highest nibble down (and its own value, the shortest key, first)
+	if bt := c.mustFn(pkg, "branch", "traverse"); bt != nil {
+		var phi *ssa.Phi
+		for _, b := range bt.Blocks {
+			for _, in := range b.Instrs {
+				if p, ok := in.(*ssa.Phi); ok && isIntType(p.Type()) && p.Comment == "i" {
+					phi = p
+				}
+			}
+		}
+		push := ""
+		if phi != nil {
+			for i, e := range phi.Edges {
+				if !phi.Block().Dominates(phi.Block().Preds[i]) {
+					if k, ok := constInt(e); ok && k == 15 {
+						push += "from15"
+					} else if ok && k == 0 {
+						push += "from0"
+					}
+					continue
+				}
+				var walk func(v ssa.Value, d int)
+				walk = func(v ssa.Value, d int) {
+					switch x := v.(type) {
+					case *ssa.BinOp:
+						k, ok := constInt(x.Y)
+						if x.X == ssa.Value(phi) && ok && ((x.Op == token.SUB && k == 1) || (x.Op == token.ADD && k == -1)) {
+							push += "-1"
+						} else if x.X == ssa.Value(phi) && ok && x.Op == token.ADD && k == 1 {
+							push += "+1"
+						} else {
+							push += "?"
+						}
+					case *ssa.Phi:
+						if d < 3 && x != phi {
+							for _, ee := range x.Edges {
+								walk(ee, d+1)
+							}
+						}
+					default:
+						push += "?"
+					}
+				}
+				walk(e, 0)
+			}
+		}
+		pop := ""
+		if nx := c.mustFn(pkg, "iterator", "Next"); nx != nil {
+			for _, cs := range c.calls(nx, byCallee("(*common/trie/ompt.iterator).traverse")) {
+				_, a := callArgs(cs.Common())
+				pop = render(a[len(a)-1])
+			}
+		}
+		desc := push != "" && strings.HasPrefix(push, "from15") && strings.Trim(strings.TrimPrefix(push, "from15"), "-1") == "" && len(push) > 6
+		asc := push != "" && strings.HasPrefix(push, "from0") && strings.Trim(strings.TrimPrefix(push, "from0"), "+1") == "" && len(push) > 5
+		last := pop == "$r.stack[(len($r.stack) - 1)]"
+		first := pop == "$r.stack[0]"
+		c.check((desc && last) || (asc && first), "C17.iteration-order", "children are scheduled so that the lowest nibble is visited first", bt.Pos(), "push "+push+", pop "+pop, "branch.traverse schedules its children "+push+" while iterator.Next takes "+pop+": keys are enumerated in descending nibble order, not ascending byte order")
+	}
+	if it := c.mustFn(pkg, "iterator", "traverse"); it != nil {
+		n := 0
+		for _, e := range exitAlts(it) {
+			if _, isC := e.Results[0].(*ssa.Const); isC {
+				continue
+			}
+			n++
+			c.requireAny("C17.filter-prefix", "iterator.traverse yields a key", e.pos(), e.Guards, "no prefix filter ∨ the item's key has the prefix ∨ the yielded key has the prefix",
+				wGE("no prefix", 0, t(-1, `^len\(\$r\.prefix\)$`)),
+				wTrue("item key has the prefix", `^\$r\.checkPrefix\((\$0|alloc<[^>]*>)\.k,false\)$`),
+				wTrue("yielded key has the prefix", "^"+regexp.QuoteMeta("$r.checkPrefix("+render(e.Results[0])+",false)")+"$"))
+		}
+		if n < 3 {
+			c.undecided("C17.filter-prefix", "iterator.traverse exits", it.Pos(), fmt.Sprintf("expected ≥3 yielding exits, found %d", n))
+		}
+	}
+
+	// ---- key ownership: a node's key slice is either cloned or shared with another (immutable) node's
+	// key slice, never a window into the caller's nibble buffer (which is pooled and reused)
+	nKeys := 0
+	classify := func(v ssa.Value) string {
+		for d := 0; d < 8; d++ {
+			switch x := v.(type) {
+			case *ssa.Slice:
+				v = x.X
+			case *ssa.Call:
+				if strings.HasSuffix(calleeName(x.Common()), "ompt.clone") {
+					return "clone"
+				}
+				return "call " + calleeName(x.Common())
+			case *ssa.Parameter:
+				return "PARAM " + x.Name()
+			case *ssa.UnOp:
+				if fa, ok := x.X.(*ssa.FieldAddr); ok && x.Op == token.MUL && fieldName(fa.X.Type(), fa.Field) == "keys" {
+					return "node keys"
+				}
+				return "load " + render(x)
+			case *ssa.Phi:
+				for _, e := range x.Edges {
+					if _, isP := unsliceBase(e).(*ssa.Parameter); isP {
+						return "PARAM via phi"
+					}
+				}
+				return "phi"
+			default:
+				return render(v)
+			}
+		}
+		return render(v)
+	}
+	for _, f := range pf {
+		for _, tn := range []string{"leaf", "extension"} {
+			for _, st := range fieldStores([]*ssa.Function{f}, tn, "keys") {
+				verdict := classify(st.Store.Val)
+				if f.Name() == "getChanged" && verdict == "PARAM keys" {
+					continue // decided at the call sites below
+				}
+				nKeys++
+				c.check(!strings.HasPrefix(verdict, "PARAM"), "C17.keys-owned", tn+".keys written in "+fnName(f), st.Store.Pos(), verdict, "the node keeps a window into the caller's key buffer ("+verdict+"): the buffer is pooled and reused, so the stored key changes later")
+			}
+		}
+		for _, cs := range c.calls(f, byMethod("getChanged")) {
+			_, a := callArgs(cs.Common())
+			if len(a) < 2 {
+				continue
+			}
+			verdict := classify(a[1])
+			nKeys++
+			c.check(!strings.HasPrefix(verdict, "PARAM"), "C17.keys-owned", "keys handed to getChanged in "+fnName(f), cs.Pos(), verdict, "the node keeps a window into the caller's key buffer ("+verdict+")")
+		}
+	}
+	if nKeys < 8 {
+		c.undecided("C17.keys-owned", "stores to node keys", token.NoPos, fmt.Sprintf("expected ≥8, found %d", nKeys))
+	}
+
+	// ---- freeze reaches the whole subtree
+	if f := c.mustFn(pkg, "extension", "freeze"); f != nil {
+		fr := c.calls(f, func(cc *ssa.CallCommon) bool { return methodName(cc) == "freeze" && render(cc.Value) == "$r.next" })
+		okF := len(fr) == 1
+		if okF {
+			sts := fieldStores([]*ssa.Function{f}, "nodeBase", "state")
+			for _, st := range sts {
+				if _, by := pathAvoidingEdges(f, f.Blocks[0].Instrs[0], func(in ssa.Instruction) bool { return in == ssa.Instruction(st.Store) }, func(in ssa.Instruction) bool { return in == ssa.Instruction(fr[0].Instr) }, wSame("no subtree", `^\$r\.next$`, `^nil$`)); by {
+					okF = false
+				}
+			}
+			okF = okF && len(sts) > 0
+		}
+		c.check(okF, "C17.freeze-subtree", "extension.freeze freezes its subtree before itself", f.Pos(), "next.freeze() on every path to frozen", "an extension is marked frozen while the subtree below it stays dirty: a snapshot shares nodes that later writes modify in place")
+	}
+	if f := c.mustFn(pkg, "branch", "freeze"); f != nil {
+		fr := c.calls(f, func(cc *ssa.CallCommon) bool { return methodName(cc) == "freeze" && strings.HasPrefix(render(cc.Value), "$r.children[") })
+		c.check(len(fr) >= 1, "C17.freeze-subtree", "branch.freeze freezes its children", f.Pos(), "children[i].freeze()", "a branch is frozen without its children")
+	}
+	// ---- the copy made for a write carries every content field
+	for _, k := range kinds {
+		for _, n := range []string{"getChangable", "getChanged"} {
+			f := c.fn(pkg, k, n)
+			if f == nil {
+				continue
+			}
+			for _, b := range f.Blocks {
+				for _, in := range b.Instrs {
+					al, ok := in.(*ssa.Alloc)
+					if !ok || namedOf(al.Type()) != k {
+						continue
+					}
+					got := map[string]bool{}
+					for _, st := range fieldStoresAny([]*ssa.Function{f}, k) {
+						if st.Addr.X == ssa.Value(al) {
+							got[fieldName(st.Addr.X.Type(), st.Addr.Field)] = true
+						}
+					}
+					var want []string
+					switch k {
+					case "leaf":
+						want = []string{"keys", "value"}
+					case "branch":
+						want = []string{"children", "value"}
+					case "extension":
+						want = []string{"keys", "next"}
+					}
+					var miss []string
+					for _, w := range want {
+						if !got[w] {
+							miss = append(miss, w)
+						}
+					}
+					c.check(len(miss) == 0, "C17.copy-complete", k+"."+n+" copies every content field", al.Pos(), strings.Join(want, ","), "the writable copy lacks "+strings.Join(miss, ",")+": a write to a frozen node loses that part of it")
+				}
+			}
+		}
+	}
+	// ---- every hashed node reaches the store: the write decision is "owns a hash", not a size test
+	if f := c.mustFn(pkg, "nodeBase", "flushBaseInLock"); f != nil {
+		sets := c.calls(f, byMethod("Set"))
+		for _, cs := range sets {
+			c.requireAt("C17.flush-hashed", "node written to the store", cs.Instr, wDiffer("owns a hash", `^\$r\.hashValue$`, `^nil$`))
+			_, a := callArgs(cs.Common())
+			c.check(len(a) == 2 && render(a[0]) == "$r.hashValue" && render(a[1]) == "$r.serialized", "C17.flush-hashed", "stored under its hash", cs.Pos(), "Set(hashValue, serialized)", "stores "+render(cs.Instr.Value()))
+		}
+		// the only conditions deciding the write are the hash and the state
+		for _, cs := range sets {
+			for _, alt := range altGuards(cs.Instr.Block()) {
+				for _, g := range alt {
+					r := render(g.Cond)
+					if _, isC := g.Cond.(*ssa.Const); isC {
+						continue
+					}
+					if !strings.Contains(r, "hashValue") && !strings.Contains(r, "state") && !strings.Contains(r, "logStatics") {
+						c.violate("C17.flush-hashed", "write decided by hash and state only", cs.Pos(), "also depends on "+g.String()+": a node that owns a hash (for instance a forced-hash root shorter than 32 bytes) may never be stored")
+					}
+				}
+			}
+		}
+		if len(sets) != 1 {
+			c.undecided("C17.flush-hashed", "flushBaseInLock store", f.Pos(), fmt.Sprintf("%d Set calls", len(sets)))
+		}
+	}
+	// ---- a leaf is removed only for exactly its key
+	if f := c.mustFn(pkg, "leaf", "delete"); f != nil {
+		n := 0
+		for _, e := range exitAlts(f) {
+			if !isConstBool(e.Results[1], true) {
+				continue
+			}
+			n++
+			c.requireGuard("C17.leaf-delete-exact", "leaf.delete removes the leaf", e.pos(), e.Guards, wTrue("exact key match", `^ompt\.compareKeys\((\$1\[\$2:\],\$r\.keys|\$r\.keys,\$1\[\$2:\])\)#1$`))
+		}
+		if n == 0 {
+			c.undecided("C17.leaf-delete-exact", "leaf.delete", f.Pos(), "no removing exit")
+		}
+	}
 }
 
 func runC18(c *Ctx) {
@@ -379,5 +613,46 @@ func runC18(c *Ctx) {
 			c.check(strings.HasPrefix(render(e.Results[0]), "$r.root.prove(") && strings.HasSuffix(render(e.Results[0]), ",$1)#1"), "C18.prove-door", "Prove returns the root's verdict", e.pos(), render(e.Results[0]), "returns "+render(e.Results[0]))
 			c.check(strings.HasSuffix(render(e.Results[1]), ",$1)#2"), "C18.prove-door", "Prove returns the root's error", e.pos(), render(e.Results[1]), "error is "+render(e.Results[1]))
 		}
+	}
+
+	// ---- producer side: a hashed branch emits itself on every exit that hands a proof back,
+	// realised children go back into the slot they came from, and the tree is hashed first
+	if gp := c.mustFn(pkg, "branch", "getProof"); gp != nil {
+		app := c.calls(gp, byCallee("builtin:append"))
+		if len(app) == 1 {
+			for _, rs := range returnSites(gp) {
+				if isNilConst(rs.Results[1]) {
+					continue
+				}
+				tr, by := pathAvoidingEdges(gp, gp.Blocks[0].Instrs[0], func(in ssa.Instruction) bool { return in == ssa.Instruction(rs.Ret) }, func(in ssa.Instruction) bool { return in == ssa.Instruction(app[0].Instr) }, wSame("no own hash", `^\$r\.[a-zA-Z.]*hashValue$`, `^nil$`))
+				c.check(!by, "C18.emit-before-exit", "branch.getProof hands a proof back only after emitting itself", rs.pos(), "append precedes", "a hashed branch returns the proof without its own encoding (path "+traceString(tr)+"): the proof for a value stored on the branch is one element short and does not verify")
+			}
+		}
+		for _, b := range gp.Blocks {
+			for _, in := range b.Instrs {
+				st, ok := in.(*ssa.Store)
+				if !ok || !strings.HasPrefix(render(st.Addr), "&$r.children[") {
+					continue
+				}
+				c.check(render(st.Addr) == "&$r.children[$1[0]]", "C18.realize-slot", "branch.getProof stores the realised child", st.Pos(), "children[keys[0]]", "stores it at "+render(st.Addr)+": the child that was walked replaces a sibling, changing the tree")
+			}
+		}
+	}
+	if gp := c.mustFn(pkg, "mpt", "GetProof"); gp != nil {
+		walk := c.calls(gp, byMethod("getProof"))
+		hashIt := c.calls(gp, func(cc *ssa.CallCommon) bool {
+			_, a := callArgs(cc)
+			return methodName(cc) == "getLink" && render(cc.Value) == "$r.root" && len(a) == 1 && isConstBool(a[0], true)
+		})
+		okH := len(walk) == 1 && len(hashIt) >= 1
+		if okH {
+			okH = false
+			for _, h := range hashIt {
+				if dominatesInstr(h.Instr, walk[0].Instr) {
+					okH = true
+				}
+			}
+		}
+		c.check(okH, "C18.hashed-first", "GetProof hashes the tree before collecting the proof", gp.Pos(), "root.getLink(true) dominates root.getProof", "the proof is collected from a tree whose nodes may not be hashed/serialised yet: GetProof fails or returns stale encodings after a write")
 	}
 }
